@@ -1,8 +1,8 @@
 (* C05 -- Policy iteration: evaluation is accurate and termination means policy stability. *)
 From Coq Require Import QArith Qabs List Arith ZArith Bool.
 From MdpaxV Require Import Model.ListUtil Model.QFun Model.MDP Model.Bellman Model.Batching Model.Kernel Model.Solvers
-     Model.KernelOps Proofs.ContractionP Proofs.LoopP Proofs.C01P Proofs.C01RunP Proofs.C02P Proofs.C05P Proofs.GenKernelP Proofs.GenPiEvalP Proofs.GenPiStepP Model.PolicyOps.
-From MdpaxGen Require Import GenKernel GenPiEval GenThreshold GenPiStep.
+     Model.KernelOps Proofs.ContractionP Proofs.LoopP Proofs.C01P Proofs.C01RunP Proofs.C02P Proofs.C05P Proofs.GenKernelP Proofs.GenPiEvalP Proofs.GenPiStepP Model.PolicyOps Model.Skeleton Proofs.SkeletonP.
+From MdpaxGen Require Import GenKernel GenPiEval GenThreshold GenPiStep GenLoops.
 Import ListNotations.
 Open Scope Q_scope.
 
@@ -63,6 +63,16 @@ Theorem eval_maxdiff_bound : forall (M : mdp) (g eps : Q), wf M -> 0 < g -> g < 
   forall s, (s < nS M)%nat -> Qabs (qnth vals s - vpi s) < eps / g.
 Proof. exact eval_maxdiff_accurate. Qed.
 Print Assumptions eval_maxdiff_bound.
+
+(* tie by translation: PolicyIteration.solve() is the GENERATED skeleton (gen/GenLoops.v, regenerated from the source on every
+   run): one improvement step per pass, the result assigned at once, the loop left exactly when the step's changed-state COUNT
+   is zero (`SBreakIf CNoChange`: the translator accepts `n_changed == 0` and nothing else - not a rounded fraction of the
+   states), a save every checkpoint_frequency iterations and one at the end.  pi_stops_iff_stable below is about this loop *)
+Theorem generated_policy_iteration_loop_is_the_modelled_loop : forall g eps POL EV t me reset V0 ckpt freq k st,
+  pi_solve g eps POL EV t me reset V0 ckpt freq k st =
+  run_skel pist pi_incr (pi_improve_step g eps POL EV t me reset V0) pi_iter (fun s => s) (fun s => s) ckpt freq pi_skel k st.
+Proof. exact pi_solve_is_skeleton. Qed.
+Print Assumptions generated_policy_iteration_loop_is_the_modelled_loop.
 
 Theorem pi_stops_iff_stable : forall (M : mdp) (g eps : Q) t me reset V0 ckpt freq k st st' conv saves,
   length (pi_pol st) = nS M ->
